@@ -168,3 +168,30 @@ Proof.
   split; [vm_compute; reflexivity|]. split; [|vm_compute; reflexivity].
   apply (check_cyclic_sound [2; 0; 3; 1] ex_cyc _ [1; 2]). vm_compute. reflexivity.
 Qed.
+
+(* ---- part 3: the order in which from_feedstock joins the recycle loops.  If every loop is connected
+   to the linear network through loops that pairwise share units (the loops of a connected flowsheet),
+   no join_recycle_network call raises 'networks must have units in common to join' and every loop is
+   joined exactly once. *)
+Theorem C19_join_order_never_raises : forall N loops,
+  (forall L, In L loops -> rch N loops L) ->
+  snd (join_order N loops) = true /\
+  Permutation (map fst (fst (join_order N loops))) (seq 0 (length loops)).
+Proof. exact join_order_ok. Qed.
+Print Assumptions C19_join_order_never_raises.
+
+(* the chain u0 -> u1 -> u2 -> u3 with returns u1 -> u0, u2 -> u1, u3 -> u2, feedstock entering at u3:
+   linear network [3], loops listed deepest first.  The loops are connected to the network, the
+   modelled order joins all of them (2, 1, 0), while ranking the loops once before the first join
+   raises at the second call: the two policies are not interchangeable. *)
+Example C19_join_order_nonvacuous :
+  (forall L, In L [[1; 0]; [2; 1]; [3; 2]] -> rch [3] [[1; 0]; [2; 1]; [3; 2]] L) /\
+  join_order [3] [[1; 0]; [2; 1]; [3; 2]] = ([(2, [3]); (1, [3; 2]); (0, [3; 2; 1])], true) /\
+  snd (join_ranked_once [3] [[1; 0]; [2; 1]; [3; 2]]) = false.
+Proof.
+  split; [|split; vm_compute; reflexivity].
+  assert (R2 : rch [3] [[1; 0]; [2; 1]; [3; 2]] [3; 2]) by (apply rch_base; [cbn; tauto|reflexivity]).
+  assert (R1 : rch [3] [[1; 0]; [2; 1]; [3; 2]] [2; 1]) by (eapply rch_step; [exact R2|cbn; tauto|reflexivity]).
+  assert (R0 : rch [3] [[1; 0]; [2; 1]; [3; 2]] [1; 0]) by (eapply rch_step; [exact R1|cbn; tauto|reflexivity]).
+  intros L [E|[E|[E|[]]]]; subst; assumption.
+Qed.
